@@ -601,3 +601,39 @@ RECIPES += [
     ("C20", "break", ["C20-R2"], S, _GETR_BODY, _GETR_HANDED_ON.replace("    return _getr_iterate(", "    return 1.001 * _getr_iterate("), "result of the loop helper scaled before it is returned"),
     ("C20", "break", ["C20-R4"], S, "            a = r\n", "            a = max(r, int((r - 1) / (1 - p)))\n", "bracket search started above the least admissible sample size: the early exit may return a non-minimal n"),
 ]
+
+
+# ---- pass 6: values returned ahead of the Newton iteration (a fast path is justified only by a test that bounds the residual by tol)
+_GUESS = "    r = norm.ppf(prob + (1 - prob) / 2) * (1 + 1 / (2 * n))\n"
+_R_INF = "    r_inf = norm.ppf(prob + (1 - prob) / 2)\n"
+_LAST_RETURN = "            RuntimeWarning,\n        )\n    return r\n"
+RECIPES += [
+    ("C20", "break", ["C20-R2"], S, _GUESS, _R_INF + "    if np.all(sn < 1e-3):\n        return r_inf * np.ones_like(sn)\n    r = r_inf * (1 + 1 / (2 * n))\n",
+     "fast path for very large samples: the normal quantile returned without iteration (np.all over the broadcast argument)"),
+    ("C20", "break", ["C20-R2"], S, _GUESS, "    if n > 1e6:\n        return norm.ppf((1 + prob) / 2)\n" + _GUESS, "scalar threshold on n skips the iteration"),
+    ("C20", "break", ["C20-R2"], S, _GUESS, _R_INF + "    if np.any(n > 1e6):\n        return r_inf + 0 * sn\n    r = r_inf * (1 + 1 / (2 * n))\n", "np.any form of the large-sample shortcut"),
+    ("C20", "break", ["C20-R2"], S, _GUESS, _R_INF + "    if (sn < 1e-3).all():\n        return r_inf + 0 * sn\n    r = r_inf * (1 + 1 / (2 * n))\n", "method form of the reduction in the shortcut's guard"),
+    ("C20", "break", ["C20-R2"], S, _GUESS, _GUESS + "    if np.all(prob > 0.999999):\n        return r\n", "threshold on the coverage: the initial guess is returned as the answer"),
+    ("C20", "break", ["C20-R2"], S, _GUESS, _GUESS + "    if 1 / (2 * n) < 1e-9:\n        return r\n", "initial guess returned when its first-order correction is small (not compared with tol)"),
+    ("C20", "break", ["C20-R2"], S, _GUESS, _GUESS + "    return r\n", "initial guess returned, the loop is dead code"),
+    ("C20", "break", ["C20-R2"], S, _LAST_RETURN, _LAST_RETURN.replace("return r\n", "return np.where(sn < 1e-3, norm.ppf((1 + prob) / 2), r)\n"),
+     "element-wise large-sample replacement of the converged iterate"),
+    ("C20", "break", ["C20-R2"], S, _GETR_BODY, _GETR_HANDED_ON.replace("    return _getr_iterate(", "    if np.all(sn < 1e-3):\n        return r\n    return _getr_iterate("),
+     "loop-helper form: the caller returns the initial guess for large samples"),
+    ("C20", "break", ["C20-R3"], S, "    r = _getr(n, p, tol)\n", "    r = norm.ppf((1 + p) / 2) if np.all(n > 1e6) else _getr(n, p, tol)\n", "large-sample shortcut in kdouble instead of the coverage root"),
+    ("C20", "neutral", [], S, _GUESS, "    def guess():\n        r_inf = norm.ppf((1 + prob) / 2)\n        return r_inf + r_inf / (2 * n)\n\n    r = guess()\n",
+     "initial guess computed in a nested helper (its return is not a return of _getr)"),
+    ("C20", "neutral", [], S, _GUESS, "    if np.any(np.asarray(n) < 2):\n        raise ValueError('n must be at least 2')\n" + _GUESS, "argument check that raises, ahead of the loop (a reduction in a guard that returns nothing)"),
+    ("C20", "neutral", [], S, _GUESS, "    eps = tol\n" + _R_INF + "    half = 1 / (2 * n)\n    r = r_inf + r_inf * half\n    tol = eps\n", "tolerance through a named local; initial guess split into terms"),
+    ("C20", "neutral", [], S, _GUESS, _GUESS + "    if not np.all(np.isfinite(r)):\n        warnings.warn('non-finite initial guess', RuntimeWarning)\n", "warning (no return) under a reduction ahead of the loop"),
+]
+_LAST_BLOCK = ("    if loops == MAXLOOPS:  # pragma: no cover\n        warnings.warn(\n            \"maximum number of loops exceeded. Solution will likely be inaccurate.\",\n"
+               "            RuntimeWarning,\n        )\n    return r\n")
+RECIPES += [
+    ("C20", "neutral", [], S, "    sn = 1 / np.sqrt(n)\n    spi = 1 / np.sqrt(2 * np.pi)\n", "    n = np.asarray(n, dtype=float)\n    sn = n ** -0.5\n    spi = (2 * np.pi) ** -0.5\n",
+     "powers instead of 1/sqrt; n converted to a float array first"),
+    ("C20", "neutral", [], S, _LAST_BLOCK, "    if loops < MAXLOOPS:\n        return r\n    warnings.warn(\n        \"maximum number of loops exceeded. Solution will likely be inaccurate.\",\n"
+     "        RuntimeWarning,\n    )\n    return r\n", "two returns of the iterate after the loop, the warning on the fall-through"),
+    ("C20", "neutral", [], S, _GUESS, "    if np.ndim(n) == 0:\n        corr = 1 + 0.5 / n\n    else:\n        corr = 1 + 0.5 / np.asarray(n)\n    r = norm.ppf(prob + (1 - prob) / 2) * corr\n",
+     "an `if` ahead of the loop that assigns the same value in both arms and returns nothing"),
+]
